@@ -395,7 +395,13 @@ var quickTimeout = 10 * time.Second
 
 // Solve races the portfolio; the first definite answer wins and the other back ends are cancelled.
 // all=true waits for every back end and reports a sat/unsat disagreement as an error.
-func Solve(q *Query, all bool) SolveResult {
+func solveWithTimeout(q *Query, d time.Duration) SolveResult {
+	return solveT(q, false, d)
+}
+
+func Solve(q *Query, all bool) SolveResult { return solveT(q, all, quickTimeout) }
+
+func solveT(q *Query, all bool, tmo time.Duration) SolveResult {
 	order := []string{"z3-new", "cvc5", "z3"}
 	if q.Lambda {
 		order = []string{"z3-new", "z3"}
@@ -408,7 +414,7 @@ func Solve(q *Query, all bool) SolveResult {
 	defer cancel()
 	for _, b := range order {
 		b := b
-		go func() { ch <- runSolverCtx(ctx, b, q, quickTimeout) }()
+		go func() { ch <- runSolverCtx(ctx, b, q, tmo) }()
 	}
 	var tried []string
 	var firstDef *SolveResult
